@@ -38,6 +38,10 @@ def gen_plan(D, max_cmds=4, horizon=40, kinds=CMD_KINDS, weights=None):
             c['state'] = D.choice(['RUNNING', 'PAUSED'])
         elif k == 'revive':
             c['state'] = D.choice(['SUCCESS', 'ERROR', 'CANCELLED'])
+        elif k == 'orphan_update':
+            c['pause_first'] = D.bool(0.4)
+            c['then_result'] = D.bool(0.6)
+            c['at'] = D.int(20, 2 * horizon)   # typically after quiescence
         plan.append(c)
     plan.sort(key=lambda c: c['at'])
     return plan
@@ -57,6 +61,11 @@ class History(object):
 
     def client(self):
         return sim.rpc_clients.get_engine_client()
+
+    def mid(self, label):
+        """Snapshot between the calls of a macro command, so that every
+        call is an observed step of its own."""
+        self.snaps.append((sim.W.step, 'cmd:' + label, sim.snapshot()))
 
     def issue(self, c, snap):
         """Issue one command; returns a record (or None when no target)."""
@@ -141,6 +150,7 @@ class History(object):
             rec['state'] = c['state']
             r0 = sim.call(cl.on_action_update, a['id'], 'RUNNING')
             rec['first'] = r0[0]
+            self.mid('revive/running')
             if c['state'] == 'SUCCESS':
                 res = sim.ml_actions.Result(data='revived')
             elif c['state'] == 'ERROR':
@@ -148,6 +158,27 @@ class History(object):
             else:
                 res = sim.ml_actions.Result(cancel=True)
             r = sim.call(cl.on_action_complete, a['id'], res)
+        elif k == 'orphan_update':
+            # macro: an action that is still live although its task already
+            # reached a final state (timed out, cancelled): external update
+            # to PAUSED / RUNNING, then its genuine result arrives
+            tstate = {t['id']: t['state'] for t in tasks}
+            cands = [a for a in acts if a['state'] not in FINAL
+                     and tstate.get(a['task_execution_id']) in FINAL]
+            if not cands:
+                return None
+            a = cands[c['sel'] % len(cands)]
+            rec['target'] = ('action', a['id'], a['name'], a['state'])
+            rec['task_state'] = tstate.get(a['task_execution_id'])
+            if c.get('pause_first'):
+                sim.call(cl.on_action_update, a['id'], 'PAUSED')
+                self.mid('orphan_update/paused')
+            r = sim.call(cl.on_action_update, a['id'], 'RUNNING')
+            if c.get('then_result'):
+                self.mid('orphan_update/running')
+                sim.W.inflight.pop(a['id'], None)
+                r = sim.call(cl.on_action_complete, a['id'],
+                             sim.ml_actions.Result(data='orphan-late'))
         elif k == 'late_result':
             cands = [a for a in acts if a['state'] in FINAL]
             if not cands:
